@@ -13,6 +13,7 @@ ASSUMPTIONS = [
     "histories without expiry of a remote node (with expiry: known finding F3)",
     "owners use distinct ids; user keys are not the internal names",
     "versions < 2^64",
+    "node ids are valid UTF-8 (cluster configuration); since fix U1 the real ApplyDigest/applyDeltaEntry ignore any other id, the world model applies the same filter where forged packets enter (WInject, Gossip/World.v sanitize_body)",
 ]
 TRUSTED = ["python invariant monitor V1-V4 (props/C02.py) evaluated on the implementation's observed states"]
 
